@@ -15,18 +15,28 @@ mod verif_l3_gen {
     use crate::utils::read_input_file_and_xsd_files_at_path;
     #[test]
     fn generate() {
+        fn generate_one(path: &str) -> Result<Vec<u8>, String> {
+            let files = read_input_file_and_xsd_files_at_path(std::path::Path::new(path)).map_err(|e| format!("read: {e}"))?;
+            let doc = XmlReader::read_xml(&files).map_err(|e| format!("parse: {e}"))?;
+            let mut w = Vec::new();
+            doc.write_xml(&mut w).map_err(|e| format!("write: {e}"))?;
+            Ok(w)
+        }
         for (path, outp) in [%s] {
-            let r = std::panic::catch_unwind(|| -> Result<Vec<u8>, String> {
-                let files = read_input_file_and_xsd_files_at_path(std::path::Path::new(path)).map_err(|e| format!("read: {e}"))?;
-                let doc = XmlReader::read_xml(&files).map_err(|e| format!("parse: {e}"))?;
-                let mut w = Vec::new();
-                doc.write_xml(&mut w).map_err(|e| format!("write: {e}"))?;
-                Ok(w)
-            });
+            // generated once in THIS thread (which has generated all earlier programs) and once in a fresh thread: the output must
+            // not depend on what was generated before (state kept across runs)
+            let r = std::panic::catch_unwind(|| generate_one(path));
+            let p2 = path.to_string();
+            let fresh = std::thread::spawn(move || std::panic::catch_unwind(|| generate_one(&p2)).ok().and_then(|x| x.ok())).join().ok().flatten();
             match r {
                 Err(_) => println!("L3GEN|{path}|PANIC"),
                 Ok(Err(e)) => println!("L3GEN|{path}|ERR|{}", e.replace('\\n', " ")),
-                Ok(Ok(w)) => { std::fs::write(outp, &w).unwrap(); println!("L3GEN|{path}|OK|{}", w.len()); }
+                Ok(Ok(w)) => {
+                    std::fs::write(outp, &w).unwrap();
+                    // (HashMap iteration may reorder whole operations between two runs: compared as multisets of lines)
+                    let lines = |b: &Vec<u8>| { let mut v: Vec<String> = String::from_utf8_lossy(b).lines().map(|l| l.to_string()).collect(); v.sort(); v };
+                    if fresh.as_ref().map(lines) != Some(lines(&w)) { println!("L3GEN|{path}|STATEFUL|{}", w.len()); } else { println!("L3GEN|{path}|OK|{}", w.len()); }
+                }
             }
         }
     }
@@ -50,7 +60,7 @@ def generate(inputs: List[str], repo: str = REPO) -> Dict[str, dict]:
         line = line[line.index('L3GEN|'):]
         parts = line.split('|', 3)
         path, st = parts[1], parts[2]
-        res[path] = {'status': st, 'msg': parts[3] if len(parts) > 3 else ''}
+        res[path] = {'status': 'OK' if st == 'STATEFUL' else st, 'msg': parts[3] if len(parts) > 3 else '', 'stateful': st == 'STATEFUL'}
     for p, o in pairs:
         if p in res:
             res[p]['out'] = o
